@@ -92,12 +92,19 @@ def c04(tier, seed):
 
 def c05(tier, seed):
     c = Check("C05", tier, seed)
-    c.rule = "MC: should_notify as coded vs vring_need_event for every (avail_idx, avail_event, last-checked) modulo 8, both flag values; negative configuration (non-wrap-aware compare) must yield a counterexample; Apalache (SMT): the same implication for all 16-bit index triples with batches <= 32768 (NotifyLemma.tla), the pre-fix comparison refuted; traces: should_notify / set_dev_notify / used_event observed in random histories; every driver's queues under the three device servicing policies (notification obligations after each internal should_notify; endless waits)"
+    c.rule = "MC: should_notify as coded vs vring_need_event for every (avail_idx, avail_event, last-checked) modulo 8, both flag values; negative configuration (non-wrap-aware compare) must yield a counterexample; liveness (WakeupMC): a notify-only standard-following device always serves a driver that follows the coded predicate, batches 1..N, indices wrapping (two negative predicates lose a wake-up); Apalache (SMT): the same implication for all 16-bit index triples with batches <= 32768 (NotifyLemma.tla), the pre-fix comparison refuted; traces: should_notify / set_dev_notify / used_event observed in random histories; every driver's queues under the three device servicing policies (notification obligations after each internal should_notify; endless waits)"
     c.assumptions = VQ_ASSUME
     if tier == "thorough":
         mc(c, ["VQ_n2_notify_flag", "VQ_n2_notify_ev4", "VQ_n2_notify_ev"], tier, negative=["VQ_bug_naive_event_compare", "VQ_bug_no_rearm"])
     else:
         mc(c, ["VQ_n2_notify_flag", "VQ_n2_notify_ev4"], tier, negative=["VQ_bug_naive_event_compare4", "VQ_bug_no_rearm"])
+    # liveness: a driver that notifies exactly when the coded predicate says so is always served by
+    # a standard-following device that works only when notified (the device's own steps - take,
+    # write avail_event, re-check - interleaved with submissions in every way, indices wrapping)
+    c.add_mc(run_tlc_mc("WakeupMC", "Wakeup_fixed.cfg", workers=2, timeout=300))
+    c.add_mc(run_tlc_mc("WakeupMC", "Wakeup_fixed_n4.cfg", workers=2, timeout=300))
+    c.add_mc(run_tlc_mc("WakeupMC", "Wakeup_bug_naive.cfg", workers=2, timeout=300), expect_violation=True)
+    c.add_mc(run_tlc_mc("WakeupMC", "Wakeup_bug_last_only.cfg", workers=2, timeout=300), expect_violation=True)
     # the same implication for the real 16-bit index width, symbolically (Apalache / SMT):
     # for all old, new, event in 0..65535 with at most 32768 submissions between two checks
     c.add_mc(run_apalache("NotifyLemma", "Lemma"))
